@@ -19,7 +19,7 @@ PROP = "C06"
 
 # the service alphabet of MC_Dispatch.tla, as ODX: name -> (request consts, n request values, response sid bytes, n response
 # values, NRC list or None)
-SERVICES: Dict[str, Tuple[List[int], int, List[int], int, Optional[List[int]]]] = {
+SERVICES: Dict[str, Tuple[List[int], int, List[int], int, Any]] = {
     "Sa": ([0x10], 1, [0x50], 1, None),
     "Sb": ([0x22], 1, [0x62], 1, [0x31, 0x33]),
     "Sc": ([0x22, 0xF1], 2, [0x62, 0xF1], 1, None),
@@ -27,7 +27,16 @@ SERVICES: Dict[str, Tuple[List[int], int, List[int], int, Optional[List[int]]]] 
     "Se": ([], 1, [0x40], 1, None),
     "Sf": ([0x31], 2, [0x71], 2, None),
     "Sg": ([0x22], 2, [0x62], 2, None),
+    "Sh": ([0x2E, 0xF1], 1, [0x6E, 0xF1], 1, None),      # emitted as ONE 16 bit constant
+    "Si": ([0x85], 1, [0xC5], 1, [[0x12], [0x22]]),      # two negative responses with the same constant prefix
 }
+WIDE = {"Sh"}
+
+
+def _consts(nm: str, bs: List[int]) -> List[str]:
+    if nm in WIDE:
+        return [og.p_const("c0", (bs[0] << 8) | bs[1], og.dct_standard("A_UINT32", 16), bytepos=0)]
+    return [og.p_const8(f"c{i}", b, bytepos=i) for i, b in enumerate(bs)]
 
 
 def build_layer(names: List[str], gnrs: List[str]) -> Any:
@@ -35,21 +44,22 @@ def build_layer(names: List[str], gnrs: List[str]) -> Any:
     lay.dops.append(og.dop("D.u8", "u8", og.dct_standard("A_UINT32", 8)))
     for nm in names:
         rqc, rqn, rsc, rsn, nrcs = SERVICES[nm]
-        ps = [og.p_const8(f"c{i}", b, bytepos=i) for i, b in enumerate(rqc)]
+        ps = _consts(nm, rqc)
         ps += [og.p_value(f"v{i + 1}", "D.u8", bytepos=len(rqc) + i) for i in range(rqn)]
         lay.requests.append(og.request(f"RQ.{nm}", f"RQ_{nm}", ps))
-        ps = [og.p_const8(f"c{i}", b, bytepos=i) for i, b in enumerate(rsc)]
+        ps = _consts(nm, rsc)
         if nm == "Sa":   # the response echoes the value byte of the request
             ps.append(og.p_matching("v1", 1, 1, bytepos=len(rsc)))
         else:
             ps += [og.p_value(f"v{i + 1}", "D.u8", bytepos=len(rsc) + i) for i in range(rsn)]
         lay.pos_responses.append(og.response("POS-RESPONSE", f"PR.{nm}", f"PR_{nm}", ps))
         neg = []
-        if nrcs:
-            lay.neg_responses.append(og.response("NEG-RESPONSE", f"NR.{nm}", f"NR_{nm}", [
+        for k, alt in enumerate(nrcs if nrcs and isinstance(nrcs[0], list) else ([nrcs] if nrcs else [])):
+            sfx = "" if k == 0 else f"_{k + 1}"
+            lay.neg_responses.append(og.response("NEG-RESPONSE", f"NR.{nm}{sfx}", f"NR_{nm}{sfx}", [
                 og.p_const8("c0", 0x7F, bytepos=0), og.p_const8("c1", rqc[0], bytepos=1),
-                og.p_nrc("nrc", nrcs, og.dct_standard("A_UINT32", 8), bytepos=2)]))
-            neg = [f"NR.{nm}"]
+                og.p_nrc("nrc", alt, og.dct_standard("A_UINT32", 8), bytepos=2)]))
+            neg.append(f"NR.{nm}{sfx}")
         lay.diag_comms.append(og.service(f"DC.{nm}", nm, f"RQ.{nm}", [f"PR.{nm}"], neg))
     for g in gnrs:
         if g == "GNR1":
